@@ -50,9 +50,20 @@ def main():
     dest = os.path.join("/repo", ddir, "zz_seed_demo_test.go")
     try:
         rc, out = sh(f"git apply {patch}", "/repo")
+        if rc != 0:
+            # the tree has moved on since the patch was made: three-way merge against the blobs it names
+            rc, out = sh(f"git apply --3way {patch}", "/repo")
+            res["applied_with_3way_merge"] = rc == 0
+            if rc == 0:
+                sh("git reset -q", "/repo")
+                rc2, conf = sh("grep -l '^<<<<<<<' $(git diff --name-only) 2>/dev/null", "/repo")
+                if conf.strip():
+                    rc = 1
+                    out = "merge conflicts in " + conf
         res["applies"] = rc == 0
         if rc != 0:
             res["apply_error"] = out[-500:]
+            print(f"{os.path.basename(os.path.dirname(os.path.dirname(seed)))} {os.path.basename(seed)}: PATCH DOES NOT APPLY to the current /repo: {out[-200:]}")
             raise SystemExit
         rc, out = sh("go build ./... && go test -vet=off -count=1 ./...", "/repo")
         res["suite_passes_with_change"] = rc == 0
@@ -69,6 +80,7 @@ def main():
             res["checks"][c] = {"exit": rc, "violation_lines": len(re.findall(r"^VIOLATION ", out, re.M)), "signatures": sigs[:12], "summary": out.strip().splitlines()[-1][:300] if out.strip() else ""}
     finally:
         if os.path.exists(dest): os.remove(dest)
+        sh("git reset -q", "/repo")
         sh("git checkout -- .", "/repo")
         sh("git clean -fdq", "/repo")
     if res.get("applies"):
